@@ -5,6 +5,8 @@
 // imported, then simplified / re-toleranced / combined.  hull cases: point
 // sequences spanning no volume, in a given order.  Every result must be an
 // empty error or a closed oriented 2-manifold whose counts agree.
+#include <unistd.h>
+
 #include "common.h"
 
 namespace vf {
@@ -129,8 +131,10 @@ int KernelMain(int argc, char** argv) {
   for (long i = from; i < (long)cases.size(); i++) {
     out.line({{"begin", i}});
     Runner r;
+    alarm(300);   // a kernel operator that loops forever is attributed to this case (SIGALRM kills the process)
     if (cases[i]["k"] == "collapse") r.runCollapse(cases[i]);
     else r.runHull(cases[i]);
+    alarm(0);
     if (!r.fails.empty()) nfail++;
     nontrivial += r.nontrivial;
     out.line({{"i", i}, {"fail", r.fails}, {"nontrivial", r.nontrivial}});
